@@ -187,7 +187,7 @@ def make_table(spec, tab):
         return impl.table_from_patients(tab["patients"], tab["table_mods"], lnls, ("ipsi",))
     if cls == "HPVUnilateral":
         df = impl.table_from_patients(tab["patients"], tab["table_mods"], lnls, ("ipsi",))
-        df[("patient", "#", "hpv_status")] = pd.Series([p.get("hpv") for p in tab["patients"]], dtype=object)
+        df[("patient", "#", "hpv_status")] = pd.Series([p.get("hpv") for p in tab["patients"]], dtype=object, index=df.index)
         return df
     return impl.table_from_patients(tab["patients"], tab["table_mods"], lnls, ("ipsi", "contra"), cls == "Midline")
 
